@@ -221,6 +221,24 @@ func successGuard(p *Prog, b *ssa.BasicBlock) string {
 			if (x.Op == token.NEQ && pol || x.Op == token.EQL && !pol) && (isNilConst(x.X) || isNilConst(x.Y)) {
 				return "pointer != nil (the element was found)"
 			}
+			if x.Op == token.EQL && pol || x.Op == token.NEQ && !pol || x.Op == token.GEQ && pol || x.Op == token.LSS && !pol {
+				// size == capacity (or size >= capacity) of a container whose capacity is at least 1 (the constructor's
+				// documented panic, R4): the container is not empty
+				fld := func(v ssa.Value) string {
+					if u, ok := v.(*ssa.UnOp); ok && u.Op == token.MUL {
+						if fa, ok := u.X.(*ssa.FieldAddr); ok {
+							return fieldNameOf(fa)
+						}
+					}
+					return ""
+				}
+				if fld(x.X) == "size" && fld(x.Y) == "maxSize" {
+					return "size == capacity, and the capacity is at least 1"
+				}
+				if (x.Op == token.EQL || x.Op == token.NEQ) && fld(x.Y) == "size" && fld(x.X) == "maxSize" {
+					return "size == capacity, and the capacity is at least 1"
+				}
+			}
 			if x.Op == token.EQL && pol || x.Op == token.NEQ && !pol {
 				// comparator result == 0
 				for _, o := range []ssa.Value{x.X, x.Y} {
@@ -543,6 +561,47 @@ func ruleR12found(c *Ctx, r *RuleResult) {
 		}
 		if !dec {
 			bad = append(bad, "a path that found the key returns without decrementing the size: "+trunc(guardsString(g), 240))
+		}
+	}
+	// the same for the red-black Remove: a path that knows lookup(key) != nil and returns has decremented the size
+	if rfn := anchorFn(p, "trees/redblacktree.Tree", "Remove"); rfn != nil {
+		rgc := c.GC(rfn)
+		var rbad []string
+		rn := 0
+		if rgc.Undecided == "" {
+			for _, g := range rgc.GCs {
+				if g.From != 0 || g.Exit.Op != "return" {
+					continue
+				}
+				foundIt := false
+				for _, a := range g.Guards {
+					if a.Op == "!=" && len(a.Args) == 2 && a.Args[0].String() == "#:nil" && a.Args[1].Op == "call" && (strings.HasSuffix(a.Args[1].Leaf, ").lookup") || strings.HasSuffix(a.Args[1].Leaf, ").GetNode")) {
+						foundIt = true
+					}
+				}
+				if !foundIt {
+					continue
+				}
+				rn++
+				dec := false
+				for _, ef := range g.Effects {
+					if storeToField(ef, "size") {
+						if d := linOf(ef.Args[1]); d.k == -1 {
+							dec = true
+						}
+					}
+				}
+				if !dec {
+					rbad = append(rbad, "a path that found the key returns without decrementing the size: "+trunc(guardsString(g), 240))
+				}
+			}
+		}
+		rkey := "R12c:trees/redblacktree.Tree.Remove-found"
+		rcl := "R12g-found every path of the red-black Remove that found the key decrements the size (an early return after the unlinking skips the count)"
+		if len(rbad) > 0 {
+			r.add(Obligation{Key: rkey, Rule: "R12c", Clause: rcl, Pos: p.FuncPos(rfn), Status: Violated, Facts: strings.Join(dedup(rbad), "\n")})
+		} else if rn > 0 {
+			r.add(Obligation{Key: rkey, Rule: "R12c", Clause: rcl, Pos: p.FuncPos(rfn), Status: Discharged, Facts: fmt.Sprintf("%d found-paths, each decrements the size", rn)})
 		}
 	}
 	switch {
